@@ -106,7 +106,7 @@ PROPS["C09"] = {
 
 PROPS["C03"] = {
     "level": "other",
-    "rules": [p_rs.prov_rsdec, p_rs.gather_scatter, p_rs.synzero, p_symbols.tab_sym, p_rs.tab_gen],
+    "rules": [p_rs.prov_rsdec, p_rs.gather_scatter, p_rs.synzero, p_rs.root_cover, p_symbols.tab_sym, p_rs.tab_gen],
     "explanation": "Clause-level claim: that every pattern of weight <= floor(k/2) is repaired is a theorem about Levinson-Durbin + "
                    "Chien + Bjoerck-Pereyra over GF(256) that no static argument in reach establishes (a mutation inside the locator "
                    "recursion is NOT detected). Decided necessary conditions, all about interleaving (the part the single-block tests "
